@@ -431,7 +431,12 @@ impl Ctx {
                 _ => 5.0,
             }
         } else {
-            1.0
+            // thorough: minutes per property for the generated part (the enumerations and the
+            // coverage-guided campaigns come on top)
+            match self.property.as_str() {
+                "C01" | "C09" | "C17" => 2.0,
+                _ => 4.0,
+            }
         };
         ((base as f64) * scale * tier_scale).ceil() as u64
     }
